@@ -18,6 +18,7 @@ package main
 import (
 	"fmt"
 	"math/rand"
+	"os"
 	"sort"
 	"strings"
 
@@ -32,6 +33,12 @@ func main() {
 	r.Assume("guards: keys referencing one table share the restrictive/non-restrictive class per event; self references carry ON DELETE actions only; statements whose outcome depends on MySQL's unspecified processing order (16 orders evaluated) are judged against the set of outcomes only")
 	r.Assume("key-changing UPDATEs address one row by id; multi-row UPDATEs assign constants to non-key columns")
 	n := r.N(250, 6000)
+	if c := os.Getenv("VERIF_CASE"); c != "" { // debugging aid: run one case of the list
+		var k int
+		fmt.Sscan(c, &k)
+		runCase(r, k)
+		r.Finish()
+	}
 	r.Parallel("hist", n, func(i int) { runCase(r, i) })
 	ddlReject(r)
 	pinned(r)
@@ -342,8 +349,8 @@ func runCase(r *core.Run, i int) {
 				w.What = "violating statement accepted (model: " + ocs[0].class + ")"
 				w.Expected = modelTables(sc, h.st)
 				if mode := staleSelfRefScan(sc, h, st, fp); mode != "" {
-					w.What += " (multi-row DELETE with a WHERE clause on a table with a self-referencing key: " + mode + ")"
-					r.Violation("selfref-table-multirow-delete-where:"+mode, w)
+					w.What += " (multi-row " + st.kind + " with a WHERE clause on a table with a self-referencing key: " + mode + ")"
+					r.Violation("selfref-table-multirow-"+st.kind+"-where:"+mode, w)
 					return
 				}
 				if deleteAllAsTruncate(sc, h, st, fp) {
@@ -357,8 +364,8 @@ func runCase(r *core.Run, i int) {
 				w.What = "statement succeeded with contents different from the model"
 				w.Expected = modelTables(sc, ocs[0].st)
 				if mode := staleSelfRefScan(sc, h, st, fp); mode != "" {
-					w.What += " (multi-row DELETE with a WHERE clause on a table with a self-referencing key: " + mode + ")"
-					r.Violation("selfref-table-multirow-delete-where:"+mode, w)
+					w.What += " (multi-row " + st.kind + " with a WHERE clause on a table with a self-referencing key: " + mode + ")"
+					r.Violation("selfref-table-multirow-"+st.kind+"-where:"+mode, w)
 					return
 				}
 				if replaceVictimSurvives(sc, h, st, obs) {
@@ -487,7 +494,7 @@ func ddlReject(r *core.Run) {
 // a different set D of rows of that table (with all referential actions). D a proper subset of the
 // selected rows: "selected-rows-survive"; otherwise "unselected-rows-deleted".
 func staleSelfRefScan(sc *schema, h *hist, st *stmt, fp string) string {
-	if st.kind != "delete" || !h.checks || st.where.kind == "all" || targetCount(h.st, st) < 2 {
+	if (st.kind != "delete" && st.kind != "update") || !h.checks || st.where.kind == "all" || targetCount(h.st, st) < 2 {
 		return ""
 	}
 	self := false
@@ -519,13 +526,18 @@ func staleSelfRefScan(sc *schema, h *hist, st *stmt, fp string) string {
 		if same {
 			continue
 		}
-		alt := &stmt{kind: "delete", t: st.t, where: pred{kind: "in", col: 0, vals: ids}}
+		alt := &stmt{kind: st.kind, t: st.t, sets: st.sets, where: pred{kind: "in", col: 0, vals: ids}}
 		for _, oc := range outcomes(sc, h.st, true, alt) {
 			if !oc.failed && oc.fp == "OK:"+fp {
-				if subset {
+				switch {
+				case subset && st.kind == "delete":
 					return "selected-rows-survive"
+				case st.kind == "delete":
+					return "unselected-rows-deleted"
+				case subset:
+					return "selected-rows-not-updated"
 				}
-				return "unselected-rows-deleted"
+				return "unselected-rows-updated"
 			}
 		}
 	}
@@ -603,7 +615,13 @@ func deleteAllAsTruncate(sc *schema, h *hist, st *stmt, fp string) bool {
 	}
 	m := &mexec{sc: sc, st: h.st.clone(), o: ord{deferSelf: true}, checks: true}
 	if err := m.apply(st); err != nil {
+		if os.Getenv("VERIF_DEBUG") != "" {
+			fmt.Println("DEBUG deferSelf err", err)
+		}
 		return false
+	}
+	if os.Getenv("VERIF_DEBUG") != "" {
+		fmt.Println("DEBUG deferSelf", m.st.fingerprint(), "engine", fp)
 	}
 	return "OK:"+m.st.fingerprint() == "OK:"+fp
 }
@@ -666,6 +684,24 @@ func pinned(r *core.Run) {
 		r.Pinned("selfref-replace-two-victims-leaves-duplicate-key",
 			"REPLACE whose new row conflicts with two rows (primary key 3, unique key 1) of a self-referencing table, the second victim referencing the first with ON DELETE SET NULL, leaves the second victim in place: two rows with unique key 1",
 			len(rows) != 2, map[string]any{"setup": setup3, "expected": []string{"3|1|NULL", "8|4|NULL"}, "actual": g.Lines(rows)})
+		e.Close()
+	}
+	{
+		e := core.NewEng("d")
+		s := e.NewSess()
+		setup4 := []string{
+			"CREATE TABLE t6 (id INT PRIMARY KEY, f INT, CONSTRAINT fk6 FOREIGN KEY (f) REFERENCES t6 (id) ON DELETE CASCADE)",
+			"INSERT INTO t6 VALUES (1,NULL),(9,NULL),(2,1),(3,1),(4,1),(5,1),(6,1),(7,1),(8,1)",
+			"UPDATE t6 SET f = 9 WHERE f = 1",
+		}
+		for _, q := range setup4 {
+			s.MustExec(q)
+		}
+		res := s.Exec("SELECT id FROM t6 WHERE f = 1")
+		r.Eval(1)
+		r.Pinned("selfref-table-multirow-update-where:selected-rows-not-updated",
+			"UPDATE t SET f = 9 WHERE f = 1 selecting 7 rows of a self-referencing table updates only some of them",
+			len(res.Rows) != 0, map[string]any{"setup": setup4, "expected_rows_with_f=1": 0, "actual": core.SortedRows(res.Rows)})
 		e.Close()
 	}
 	r.Eval(1)
